@@ -84,7 +84,8 @@ func main() {
 		}
 	case "inventory":
 		// writes the function inventory of the current tree (all builds) to stdout
-		set := map[string]bool{}
+		set := map[string][]string{}
+		callers := map[string]map[string]bool{}
 		for _, goos := range []string{"", "darwin", "freebsd", "openbsd", "windows"} {
 			p, err := core.Load(goos)
 			if err != nil {
@@ -92,7 +93,15 @@ func main() {
 				os.Exit(2)
 			}
 			for _, k := range p.Inventory() {
-				set[k] = true
+				set[k] = append(set[k], p.GOOS)
+			}
+			for k, cs := range p.InventoryCallers() {
+				for _, c := range cs {
+					if callers[k] == nil {
+						callers[k] = map[string]bool{}
+					}
+					callers[k][c] = true
+				}
 			}
 		}
 		var keys []string
@@ -100,8 +109,15 @@ func main() {
 			keys = append(keys, k)
 		}
 		sort.Strings(keys)
-		fmt.Println("# Declared functions of the module in the verified tree (all builds); see checker/core/inventory.go.")
-		fmt.Println(strings.Join(keys, "\n"))
+		fmt.Println("# Declared functions of the module in the verified tree, with the builds they exist in; see checker/core/inventory.go.")
+		for _, k := range keys {
+			var cs []string
+			for c := range callers[k] {
+				cs = append(cs, c)
+			}
+			sort.Strings(cs)
+			fmt.Println(k + "\t" + strings.Join(set[k], ",") + "\t" + strings.Join(cs, ";"))
+		}
 	case "list":
 		var ids []string
 		for id := range rules.All {
@@ -164,13 +180,76 @@ func check(id, tier string) (code int) {
 			builds = append(builds, map[string]any{
 				"goos": goos, "root_packages": len(p.Pkgs), "all_packages": len(p.AllPkg),
 				"module_functions_with_bodies": nfn, "all_functions": len(p.Fns), "load_s": p.LoadTime.Seconds(),
+				"new_functions_expanded_into_callers": p.Inline.Callees, "expanded_call_sites": p.Inline.Calls,
+				"new_functions_left_as_calls": p.Inline.Skipped, "callers_rewritten": p.Inline.Rewrites, "renamed": p.Renamed,
 			})
+			for _, b := range p.Inline.Broken {
+				rep.Fail("checker", "expansion-sanity:"+goos, "-", "the expansion of a new function produced an inconsistent function body (checker defect): "+b)
+			}
+			if len(p.Renamed) > 0 {
+				fmt.Printf("listed functions found under a new name: %v\n", p.Renamed)
+			}
+			if p.Inline.Calls > 0 || len(p.Inline.Skipped) > 0 {
+				fmt.Printf("functions not in the inventory: %d call sites expanded into %d callers (%v); left as calls: %v\n",
+					p.Inline.Calls, len(p.Inline.Rewrites), p.Inline.Callees, p.Inline.Skipped)
+			}
 			fmt.Printf("analysed build GOOS=%s: %d root packages, %d packages total, %d module functions, load %.1fs\n",
 				goos, len(p.Pkgs), len(p.AllPkg), nfn, p.LoadTime.Seconds())
 			if len(p.Pkgs) < 30 || nfn < 1000 {
 				rep.Fail("load", "coverage:"+goos, "-", fmt.Sprintf("only %d packages / %d functions loaded; expected >= 30 / 1000", len(p.Pkgs), nfn))
 			}
+			first := len(rep.Obs)
 			rule.Run(&rules.Ctx{P: p, R: rep, Tier: tier})
+			if len(p.Folded) > 0 {
+				builds[len(builds)-1].(map[string]any)["listed_functions_gone_analysed_in_their_former_caller"] = p.Folded
+				fmt.Printf("listed functions that are gone, analysed in their only former caller: %v\n", p.Folded)
+			}
+			// Two views of new functions.  The rules have just been decided on the tree with the functions the
+			// inventory does not list expanded into their callers.  An obligation that is not discharged on that
+			// view is decided once more on the tree as written, where such functions are looked through by the
+			// lifting mechanisms instead (guards in helpers, effects passed in helpers, values across frames).
+			// Both views are the same program, so an obligation holds if either view proves it.
+			if p.Inline.Calls > 0 && os.Getenv("AGHVERIF_NOINLINE") == "" {
+				failed := false
+				for _, ob := range rep.Obs[first:] {
+					if !ob.OK {
+						failed = true
+					}
+				}
+				if failed {
+					os.Setenv("AGHVERIF_NOINLINE", "1")
+					p2, err := core.Load(goos)
+					os.Unsetenv("AGHVERIF_NOINLINE")
+					if err == nil {
+						rep2 := core.NewReport(id, tier, seed)
+						rep2.GOOS = goos
+						func() {
+							defer func() { _ = recover() }()
+							rule.Run(&rules.Ctx{P: p2, R: rep2, Tier: tier})
+						}()
+						proved := map[string]bool{}
+						refuted := map[string]bool{}
+						for _, ob := range rep2.Obs {
+							if ob.OK {
+								proved[ob.FullKey()] = true
+							} else {
+								refuted[ob.FullKey()] = true
+							}
+						}
+						n := 0
+						for i := first; i < len(rep.Obs); i++ {
+							ob := &rep.Obs[i]
+							if !ob.OK && proved[ob.FullKey()] && !refuted[ob.FullKey()] {
+								ob.OK = true
+								ob.Msg = "decided on the tree as written (new functions looked through, not expanded): " + ob.Msg
+								ob.Detail = nil
+								n++
+							}
+						}
+						fmt.Printf("second view (new functions not expanded): %d obligation(s) discharged there\n", n)
+					}
+				}
+			}
 		}()
 		runtime.GC()
 	}
